@@ -585,3 +585,220 @@ def try_symbolic_dictcomp(interp, e, env):   # noqa: F811
     amt2 = _z3.Lambda([x], _z3.If(_z3.And(m.mem[x], keepz), real(vv), _z3.RealVal(0)))
     r = SymMap(amt2, mem2, True)
     return r
+
+
+# ===================================================================================== name-keyed symbolic collections (recipes)
+ArrNB = _z3.ArraySort(Name, BS)
+_card = _z3.Function('card', ArrNB, IS)
+
+
+def name_term(interp, v):
+    if isinstance(v, NameV):
+        return v.term
+    if isinstance(v, str):
+        return _B.name_const(interp, v)
+    return None
+
+
+class NameDict:
+    """dict[str, object] of arbitrary size known only through its key set (results, stages of a Recipe)."""
+    py_type = 'dict'
+    py_iterable = True
+
+    def __init__(self, mem=None, fresh_=False, tag='d', value_factory=None):
+        self.mem = mem if mem is not None else _z3.Const(f'keys_{tag}', ArrNB)
+        self.fresh = fresh_
+        self.tag = tag
+        self.known = []        # list of (name term, value) stored during this run, newest last
+        self.value_factory = value_factory
+        self.owner = None
+
+    def sym_contains(self, interp, item, node=None):
+        t = name_term(interp, item)
+        if t is None:
+            return False
+        return self.mem[t]
+
+    def sym_getitem(self, interp, k, node=None):
+        t = name_term(interp, k)
+        if t is None or not interp.decide(self.mem[t], f"name in {self.tag}"):
+            raise Raised('KeyError', getattr(node, 'lineno', None), repr(k), implicit=True)
+        for kt, v in reversed(self.known):
+            if kt.eq(t):
+                return v
+            if interp.decide(kt == t, f"same name as a stored key ({self.tag})"):
+                return v
+        if self.value_factory is not None:
+            v = self.value_factory(interp, t)
+            self.known.append((t, v))
+            return v
+        return Opaque(f'{self.tag}[{t}]')
+
+    def sym_setitem(self, interp, k, value, node=None):
+        t = name_term(interp, k)
+        if t is None:
+            raise Unsupported("non-string key in a name dictionary")
+        if not self.fresh:
+            interp.writes.append((self.owner or self, f'{self.tag}[...]', getattr(node, 'lineno', None),
+                                  interp.call_stack[-1] if interp.call_stack else '?'))
+        self.mem = _z3.Store(self.mem, t, True)
+        self.known.append((t, value))
+
+    def sym_getattr(self, interp, attr, node=None):
+        if attr == 'keys':
+            return BoundV(self, BuiltinV('NameDict.keys', lambda i, a, k, n: a[0]))
+        if attr == 'values':
+            return BoundV(self, BuiltinV('NameDict.values', lambda i, a, k, n: NameDictValues(a[0])))
+        if attr == 'get':
+            raise Unsupported("NameDict.get")
+        if hasattr(dict, attr):
+            raise Unsupported(f"dict.{attr} on a symbolic name dictionary")
+        raise Raised('AttributeError', getattr(node, 'lineno', None), attr, implicit=True)
+
+    def sym_len(self, interp, node=None):
+        c = _card(self.mem)
+        interp.assume(c >= 0)
+        return c
+
+    def sym_deepcopy(self, interp, memo):
+        d = NameDict(self.mem, True, self.tag, self.value_factory)
+        d.known = list(self.known)
+        return d
+
+    def sym_iterate(self, interp, node=None):
+        raise Unsupported("iteration over a name dictionary of arbitrary size")
+
+    def sym_equals(self, interp, other):
+        return other is self
+
+
+class NameDictValues:
+    py_iterable = True
+
+    def __init__(self, d):
+        self.d = d
+
+    def sym_iterate(self, interp, node=None):
+        raise Unsupported("iteration over the values of a name dictionary of arbitrary size")
+
+    def sym_anyall(self, interp, gen, g, is_any, node):
+        # all(isinstance(elem, (Container, Plate)) for elem in self.results.values()): values are opaque here
+        return fresh('allvalues', BS)
+
+
+class NameSet:
+    """set[str] of arbitrary size."""
+    py_iterable = True
+
+    def __init__(self, mem=None, fresh_=False, tag='s'):
+        self.mem = mem if mem is not None else _z3.Const(f'set_{tag}', ArrNB)
+        self.fresh = fresh_
+        self.tag = tag
+        self.owner = None
+
+    def sym_contains(self, interp, item, node=None):
+        t = name_term(interp, item)
+        if t is None:
+            return False
+        return self.mem[t]
+
+    def sym_add(self, interp, item, node=None):
+        t = name_term(interp, item)
+        if t is None:
+            raise Unsupported("non-string element in a name set")
+        if not self.fresh:
+            interp.writes.append((self.owner or self, f'{self.tag}.add', getattr(node, 'lineno', None),
+                                  interp.call_stack[-1] if interp.call_stack else '?'))
+        old = self.mem
+        self.mem = _z3.Store(self.mem, t, True)
+        # cardinality of a one-element extension
+        interp.assume(_card(self.mem) == _card(old) + _z3.If(old[t], 0, 1))
+
+    def sym_getattr(self, interp, attr, node=None):
+        if attr == 'add':
+            return BoundV(self, BuiltinV('NameSet.add', lambda i, a, k, n: a[0].sym_add(i, a[1], n)))
+        if hasattr(set, attr):
+            raise Unsupported(f"set.{attr} on a symbolic name set")
+        raise Raised('AttributeError', getattr(node, 'lineno', None), attr, implicit=True)
+
+    def sym_len(self, interp, node=None):
+        c = _card(self.mem)
+        interp.assume(c >= 0)
+        return c
+
+    def sym_deepcopy(self, interp, memo):
+        return NameSet(self.mem, True, self.tag)
+
+    def sym_iterate(self, interp, node=None):
+        raise Unsupported("iteration over a name set of arbitrary size")
+
+
+class SymList:
+    """list of arbitrary length known through its length and what is appended during the run (Recipe.steps)."""
+    py_type = 'list'
+    py_iterable = True
+
+    def __init__(self, n=None, fresh_=False, tag='l', elem_factory=None):
+        self.n = n if n is not None else _z3.Int(f'len_{tag}')
+        self.n0 = self.n
+        self.fresh = fresh_
+        self.tag = tag
+        self.appended = []
+        self.elem_factory = elem_factory
+        self.owner = None
+
+    def sym_len(self, interp, node=None):
+        return self.n
+
+    def sym_getattr(self, interp, attr, node=None):
+        if attr == 'append':
+            return BoundV(self, BuiltinV('SymList.append', SymList._append))
+        if hasattr(list, attr):
+            raise Unsupported(f"list.{attr} on a symbolic list")
+        raise Raised('AttributeError', getattr(node, 'lineno', None), attr, implicit=True)
+
+    @staticmethod
+    def _append(interp, args, kwargs, node):
+        self, x = args[0], args[1]
+        if not self.fresh:
+            interp.writes.append((self.owner or self, f'{self.tag}.append', getattr(node, 'lineno', None),
+                                  interp.call_stack[-1] if interp.call_stack else '?'))
+        self.appended.append(x)
+        self.n = self.n + 1
+
+    def sym_getitem(self, interp, k, node=None):
+        if isinstance(k, SliceV):
+            return SymListSlice(self, k)
+        raise Unsupported("indexing a symbolic list")
+
+    def sym_iterate(self, interp, node=None):
+        raise Unsupported("iteration over a list of arbitrary length outside a cut loop")
+
+    def sym_loop(self, interp, st, env):
+        from . import loops
+        return loops.loop_over_list(interp, st, env, self)
+
+    def sym_deepcopy(self, interp, memo):
+        l = SymList(self.n, True, self.tag, self.elem_factory)
+        l.appended = list(self.appended)
+        return l
+
+    def sym_truth(self, interp):
+        return self.n > 0
+
+
+class SymListSlice:
+    py_iterable = True
+
+    def __init__(self, lst, sl):
+        self.lst, self.sl = lst, sl
+
+    def sym_iterate(self, interp, node=None):
+        raise Unsupported("iteration over a slice of a symbolic list outside a cut loop")
+
+    def sym_loop(self, interp, st, env):
+        from . import loops
+        return loops.loop_over_list(interp, st, env, self.lst, self.sl)
+
+    def sym_reversed(self, interp, node=None):
+        return self
